@@ -173,6 +173,7 @@ func check(c Case) evid.Result {
 	// ---- twin: which untracked files does git itself keep? (always all of the
 	// non-conflicting ones; the D/F-conflicting ones depend on the case)
 	twinKeeps := map[string]bool{}
+	var twinPost map[string]wtgen.State // worktree of the git twin after the same operation (nil: git refused)
 	{
 		tw := top + "/twin"
 		wtgen.CopyDir(dir, tw)
@@ -189,6 +190,7 @@ func check(c Case) evid.Result {
 		}
 		if code == 0 {
 			post := wtgen.Snapshot(tw)
+			twinPost = post
 			for _, u := range append(append([]string(nil), conflicting...), untracked...) {
 				if s, ok := post[u]; ok && s == pre[u] {
 					twinKeeps[u] = true
@@ -314,6 +316,40 @@ func check(c Case) evid.Result {
 		}
 		if s, ok := post[u]; !ok || s != pre[u] {
 			fail("untracked-file-lost:"+untrackedClass(u, A, B, stBefore), "untracked %q (%s) before, git keeps it; after go-git: present=%v kind=%s data=%.40q", u, pre[u].Kind, ok, s.Kind, s.Data)
+		}
+	}
+	// formerly tracked paths that are not in C must be gone: a file that is neither in the target tree
+	// nor was untracked before, still exists after go-git's operation, and does NOT exist after the
+	// same operation by git on the twin, is a stale leftover ("match C exactly")
+	if twinPost != nil {
+		wasUntracked := map[string]bool{}
+		for _, u := range wtgen.Untracked(stBefore) {
+			wasUntracked[u] = true
+		}
+		for _, q := range wtgen.SortedKeys(post) {
+			if _, inC := want[q]; inC || wasUntracked[q] {
+				continue
+			}
+			if _, gitHas := twinPost[q]; gitHas {
+				continue
+			}
+			if _, existed := pre[q]; !existed {
+				continue // created by the operation itself: judged by the target comparison above
+			}
+			below := false
+			for u := range wasUntracked {
+				if strings.HasPrefix(q, u+"/") {
+					below = true // inside an untracked directory git status folds into one entry
+				}
+			}
+			if below {
+				continue
+			}
+			cls := "not-in-HEAD"
+			if A.Has(q) {
+				cls = "tracked-in-HEAD"
+			}
+			fail("stale-file-left-behind:"+cls, "path %q (%s) is not in the target, was not untracked before, is removed by git's own %s on the twin, but still exists after go-git's", q, pre[q].Kind, c.Op)
 		}
 	}
 	if len(fails) > 0 {
